@@ -127,7 +127,12 @@ def _loads_xml(string):
         if "ANGLE_TYPE" in meta:
             angle_type = meta["ANGLE_TYPE"].text
 
-        for obs in segment["data"]["observation"]:
+        observations = segment["data"]["observation"]
+        if isinstance(observations, dict):
+            # a single observation in the segment
+            observations = [observations]
+
+        for obs in observations:
             date = parse_date(obs.pop("EPOCH").text, scale)
             meas_type, value = list(obs.items())[0]
             value = float(value.text)
